@@ -140,6 +140,28 @@ def rewrite(text, fmt, rnd):
     for _ in range(rnd.randrange(3)):
         fb = ["Block " + rnd.choice(["FOREIGN", "SPINFO_X", "DCINFO", "EXTPAR", "YU", "UMIX"]), "   1   2.5", "   1  1   abc   # not read", "   2   nan"]
         out.insert(rnd.randrange(len(out) + 1), fb)
+    # foreign blocks whose names merely resemble the names of the blocks that are read (an extension, a truncation, a prefixed or suffixed variant), with the
+    # entries of the real block and other values - a name lookup that is not an exact comparison picks them up
+    for _ in range(rnd.randrange(3)):
+        b = rnd.choice(blocks)
+        h = b[0].split()
+        if len(h) < 2:
+            continue
+        name = h[1]
+        variant = rnd.choice([name + "IN", name + "2", name + "OLD", name + "_", name + "Backup", name[:-1], "X" + name, name[1:], name + name])
+        if not variant or variant.upper() in [bb[0].split()[1].upper() for bb in blocks if len(bb[0].split()) > 1]:
+            continue
+        fb = [" ".join([h[0], variant] + h[2:])]
+        for line in b[1:]:
+            body = line.split("#")[0].split()
+            if not body:
+                continue
+            try:
+                body[-1] = "%.17g" % (float(body[-1]) * 1.37 + 0.1)
+            except ValueError:
+                pass
+            fb.append("   " + "   ".join(body) + "   # resembling block")
+        out.insert(rnd.randrange(len(out) + 1), fb)
     # repeated scale-dependent blocks at other scales, placed before the effective ones
     if fmt == "slha":
         q_eff = None
